@@ -29,7 +29,7 @@ def check(module, args, timeout=600):
         shutil.rmtree(os.path.dirname(out), ignore_errors=True)
 
 
-def inductive(module, inv='IndInv', prop='Isolation', broken_next='NextNoFinally', timeout=600):
+def inductive(module, inv='IndInv', prop='Isolation', broken_next='NextNoFinally', timeout=600, extra=None):
     """the four runs of an inductive-invariant argument, in parallel: base case, inductive step, implication, and the non-vacuity run
     (the step must fail for the deliberately broken next-state relation)"""
     runs = {
@@ -38,6 +38,7 @@ def inductive(module, inv='IndInv', prop='Isolation', broken_next='NextNoFinally
         'implication (%s => %s)' % (inv, prop): ['--init=IndInit', '--inv=' + prop, '--length=0'],
         'non-vacuity (step under %s must fail)' % broken_next: ['--init=IndInit', '--next=' + broken_next, '--inv=' + inv, '--length=1'],
     }
-    with ThreadPoolExecutor(4) as ex:
+    runs.update(extra or {})
+    with ThreadPoolExecutor(6) as ex:
         res = dict(zip(runs, ex.map(lambda a: check(module, a, timeout), runs.values())))
     return res
